@@ -211,7 +211,9 @@ func (w *pkWorld) Close() {
 }
 
 func (w *pkWorld) put(cl *s3c.Client, label, wid string, tag bool) *s3c.Resp {
-	h := []s3c.KV{{K: "X-Amz-Meta-Wid", V: wid}}
+	// (a second metadata entry whose NAME is the writer's own: an attribute left behind by
+	// another write is then visible, not just a wrong value)
+	h := []s3c.KV{{K: "X-Amz-Meta-Wid", V: wid}, {K: "X-Amz-Meta-Only-" + wid, V: "1"}}
 	if tag {
 		h = append(h, s3c.KV{K: "X-Amz-Tagging", V: "wid=" + wid})
 	}
@@ -319,6 +321,14 @@ func (w *pkWorld) observeGet(r *s3c.Resp) linOp {
 			o.Meta = m
 		} else {
 			o.Meta = "mixed"
+		}
+		for k := range r.Header {
+			if lk := strings.ToLower(k); strings.HasPrefix(lk, "x-amz-meta-only-") && lk != "x-amz-meta-only-"+strings.ToLower(o.Meta) {
+				o.Meta = "mixed" // an entry of another write
+			}
+		}
+		if o.Meta != "mixed" && r.Header.Get("X-Amz-Meta-Only-"+o.Meta) == "" {
+			o.Meta = "mixed" // the write's own entry is missing
 		}
 	}
 	return o
@@ -608,6 +618,8 @@ func C05(c *core.Ctx, replay string) {
 		// writes of equal length (nothing but the bytes distinguishes them)
 		{name: "put_get_get", initPresent: true, sample: c.Pick(40, 300), same: true},
 		{name: "put_put_get", initPresent: true, sample: c.Pick(40, 300), same: true},
+		// two first-time uploads of a key (nothing at the name when either is admitted)
+		{name: "put_put", initPresent: false, sample: c.Pick(60, 400), fine: true},
 	}
 	if c.Thorough() {
 		plans = append(plans, scnPlan{name: "del_del", initPresent: true, exhaustive: true}, scnPlan{name: "put_del", exhaustive: true}, scnPlan{name: "put_put_get", sample: 300})
@@ -668,7 +680,7 @@ func C05(c *core.Ctx, replay string) {
 			}
 			if ci > 0 && q {
 				// quick: on the second configuration only sampled PUT||GET, PUT||DELETE and one triple
-				if !(pl.initPresent && (pl.name == "put_get" || pl.name == "put_del" || pl.name == "put_put_get" || pl.fine) || pl.symmetric) {
+				if !(pl.initPresent && (pl.name == "put_get" || pl.name == "put_del" || pl.name == "put_put_get" || pl.fine) || pl.symmetric || (pl.name == "put_put" && !pl.initPresent)) {
 					continue
 				}
 				if !pl.fine && !pl.same {
